@@ -10,31 +10,31 @@ Open Scope Z_scope.
    at most one candidate accepts any argument list.  `accepts` is arbitrary (go/types assignability, not modelled). *)
 Theorem C10_resolve_perm_invariant : forall (C A : Type) (accepts : C -> A -> bool) cs cs' a,
   pairwise_distinguishable accepts cs -> Permutation cs cs' -> resolve accepts cs a = resolve accepts cs' a.
-Proof. intros. now apply resolve_perm. Qed.
+Proof. exact resolve_perm_any. Qed.
 
 (* ... and it reaches the candidate whose parameters accept the arguments *)
 Theorem C10_resolve_complete : forall (C A : Type) (accepts : C -> A -> bool) cs a c,
   pairwise_distinguishable accepts cs -> In c cs -> accepts c a = true -> resolve accepts cs a = Some c.
-Proof. intros. now apply resolve_complete. Qed.
+Proof. exact resolve_complete_any. Qed.
 
 (* the functions cl declares for literal candidates have pairwise distinct names *)
 Theorem C10_overload_names_injective : forall name idx idx',
   0 <= idx < 36 -> 0 <= idx' < 36 ->
   gen_overloadFuncName name idx = gen_overloadFuncName name idx' -> idx = idx'.
-Proof. intros name idx idx' H H'. apply overload_names_injective; rewrite table_len; assumption. Qed.
+Proof. exact overload_names_injective_36. Qed.
 
 Theorem C10_overload_names_injective_across : forall name name' idx idx',
   0 <= idx < 36 -> 0 <= idx' < 36 ->
   gen_overloadFuncName name idx = gen_overloadFuncName name' idx' -> name = name' /\ idx = idx'.
-Proof. intros name name' idx idx' H H'. apply overload_names_injective_name; rewrite table_len; assumption. Qed.
+Proof. exact overload_names_injective_across_36. Qed.
 
 (* overloadFuncName indexes a 36-character table: index 36 (the 37th literal candidate) panics *)
 Theorem C10_overloadFuncName_panics_from_36 : forall name idx, 36 <= idx -> gen_overloadFuncName name idx = Panic.
-Proof. intros name idx H. apply gen_overloadFuncName_panic. right. rewrite table_len. exact H. Qed.
+Proof. exact overloadFuncName_panics_from_36. Qed.
 
 (* cl and gogen use the same table and the prefix whose length gogen strips is "Gopo_" *)
 Theorem C10_tables_agree : gogen_indexTable = gen_indexTable /\ gogen_gopoPrefix = [71;111;112;111;95]%N.
-Proof. split; [exact tables_agree|exact gopo_prefix]. Qed.
+Proof. exact tables_agree_both. Qed.
 
 (* THE TABLE: for a well-formed overload declaration (guards wf_odecl: 1..36 candidates; named candidates are
    non-empty and comma free; literal candidates only without receiver/operator; the (receiver, name) pair survives
